@@ -481,5 +481,5 @@ def _nt(case):
 
 
 SUBS = [
-    Sub("traj", sub_traj, st_case, 1600, 40000, nontrivial=_nt, shards_quick=8),
+    Sub("traj", sub_traj, st_case, 4800, 60000, nontrivial=_nt, shards_quick=16),
 ]
